@@ -310,6 +310,9 @@ def run_script(kind, name, op, pre):
     log = []
     with World() as w:
         table = [(name, list(INITIAL[name])), ('IntOpt', ['5'])]
+        if kind == 'two-lists':
+            o_ = 'LineOpt' if name != 'LineOpt' else 'SocksPort'
+            table.append((o_, list(INITIAL[o_])))
         impl = CfgImpl(w, table)
         cfg, sim = impl.cfg, impl.sim
         if impl.boot != ['ok']:
@@ -362,19 +365,52 @@ def run_script(kind, name, op, pre):
             elif kind == 'assign-string':
                 # a comma-list option assigned as text ('x,y'), saved, then edited in place
                 setattr(cfg, name, '%s,%s' % (a, b))
+                if pre == 'rejected-save':
+                    sim.override('SETCONF', (513, [('line', 'Unacceptable option value: rejected by the harness')]))
                 cfg.save().addErrback(lambda f: None)
                 sim.pump()
                 base2 = len(sim.commands)
-                log.append("%s = '%s,%s'; save; append; save" % (name, a, b))
+                log.append("%s = '%s,%s'; save (%s); append; save" % (name, a, b, pre))
                 getattr(cfg, name).append(c)
                 if not cfg.needs_save():
-                    viol.append(('needs-save-false-after-change', 'append/after-text-assignment', 'after %s was assigned as text and saved, append() on it is not tracked' % name))
+                    viol.append(('needs-save-false-after-change', 'append/after-text-assignment' + ('' if pre != 'rejected-save' else '/rejected'),
+                                 'after %s was assigned as text and saved (%s), append() on it is not tracked' % (name, pre)))
                 cfg.save().addErrback(lambda f: None)
                 sim.pump()
                 want = [a, b, c]
                 got = [x.strip() for v in sim.conf[name] for x in v.split(',')]
-                if got != want and not viol:
+                if got != want and not viol and pre == 'rejected-save' and got == [a, b]:
+                    viol.append(('change-lost-after-rejected-save', 'comma/text-assignment-then-append',
+                                 'assigned as text, save rejected, append(%r), save accepted: Tor has %r (commands %r)' % (c, sim.conf[name], sim.commands[base2:])))
+                elif got != want and not viol:
                     viol.append(('store-differs-after-save', 'comma', 'Tor has %r, the user\'s list is %r (commands %r)' % (sim.conf[name], want, sim.commands[base2:])))
+            elif kind == 'two-lists':
+                # op 'event': one CONF_CHANGED names two list options; op 'save': a comma list assigned as text is saved together
+                # with a line list.  Then the FIRST of the two is edited in place and saved: the SETCONF names it, and only it.
+                other = 'LineOpt' if name != 'LineOpt' else 'SocksPort'
+                if op == 'event':
+                    lines = ['']
+                    for n_, vals in ((name, [a, b]), (other, ['o1', 'o2'] if other != 'SocksPort' else ['9071', '9072'])):
+                        vv = vals if TYPES[n_][1] != 'comma' else [','.join(vals)]
+                        sim.conf[n_] = list(vv)
+                        lines += ['%s=%s' % (n_, v) for v in vv]
+                    sim.event_bytes(ctlcodec.encode_event('CONF_CHANGED', 'multi', lines))
+                    sim.pump()
+                else:
+                    setattr(cfg, name, '%s,%s' % (a, b) if TYPES[name][1] == 'comma' else [a, b])
+                    setattr(cfg, other, ['o1', 'o2'] if other != 'SocksPort' else ['9071', '9072'])
+                    cfg.save().addErrback(lambda f: None)
+                    sim.pump()
+                base2 = len(sim.commands)
+                log.append('%s and %s set together (%s); append to %s; save' % (name, other, op, name))
+                getattr(cfg, name).append(c)
+                cfg.save().addErrback(lambda f: None)
+                sim.pump()
+                setconfs = [x for x in sim.commands[base2:] if x.startswith('SETCONF')]
+                keys = sorted(set(k for x in setconfs for k, v in kvline.parse(x[len('SETCONF'):])))
+                if keys != [name]:
+                    viol.append(('setconf-keys', 'wrong-option-named/two-lists-set-together/' + op,
+                                 '%s and %s were set together (%s); then only %s was edited in place; the save wrote %r' % (name, other, op, name, setconfs)))
             elif kind == 'failed-op':
                 lst = getattr(cfg, name)
                 try:
@@ -455,11 +491,17 @@ def run_task(param, acc):
                 acc.execution(key=('script', name, op), outcome='script/' + ('/'.join(sorted(set(v[0] for v in r['viol']))) or 'ok'), nontrivial=True, steps=3)
                 for cl, ft, dt in r['viol']:
                     acc.violation('%s/%s' % (cl, ft), dt, dict(script='failed-op', name=name, op=op, pre=None), cost=4)
-            if TYPES[name][1] == 'comma':
-                r = run_script('assign-string', name, None, None)
-                acc.execution(key=('script', name, 'assign-string'), outcome='script/' + ('/'.join(sorted(set(v[0] for v in r['viol']))) or 'ok'), nontrivial=True, steps=4)
+            for op in ('event', 'save'):
+                r = run_script('two-lists', name, op, None)
+                acc.execution(key=('script', name, 'two-lists', op), outcome='script/' + ('/'.join(sorted(set(v[0] for v in r['viol']))) or 'ok'), nontrivial=True, steps=4)
                 for cl, ft, dt in r['viol']:
-                    acc.violation('%s/%s' % (cl, ft), dt, dict(script='assign-string', name=name, op=None, pre=None), cost=4)
+                    acc.violation('%s/%s' % (cl, ft), dt, dict(script='two-lists', name=name, op=op, pre=None), cost=5)
+            if TYPES[name][1] == 'comma':
+                for pre in ('none', 'rejected-save'):
+                    r = run_script('assign-string', name, None, pre)
+                    acc.execution(key=('script', name, 'assign-string', pre), outcome='script/' + ('/'.join(sorted(set(v[0] for v in r['viol']))) or 'ok'), nontrivial=True, steps=4)
+                    for cl, ft, dt in r['viol']:
+                        acc.violation('%s/%s' % (cl, ft), dt, dict(script='assign-string', name=name, op=None, pre=pre), cost=4)
             r = run_script('foreign-change', name, None, None)
             acc.execution(key=('script', name, 'foreign'), outcome='script/' + ('/'.join(sorted(set(v[0] for v in r['viol']))) or 'ok'), nontrivial=True, steps=4)
             for cl, ft, dt in r['viol']:
